@@ -7,7 +7,7 @@ import traceback
 
 
 def registry():
-    from .props import build, c03, c06, graph, history, static
+    from .props import build, c03, c06, graph, history, static, types
 
     reg = {}
     for p in ("C01", "C02", "C07"):
@@ -17,6 +17,8 @@ def registry():
     reg["C16"] = graph.run
     reg["C08"] = graph.run
     reg["C18"] = build.run
+    reg["C12"] = types.run
+    reg["C13"] = types.run
     reg["C19"] = build.run
     for p in ("C04", "C05", "C20"):
         reg[p] = history.run
